@@ -22,7 +22,7 @@ type docFamily struct {
 type famCase struct {
 	Fam  string `json:"fam"`
 	I    int    `json:"i"`
-	Text string `json:"text"`
+	Text fw.Txt `json:"text"`
 }
 
 var (
@@ -32,12 +32,15 @@ var (
 
 func cachedFamilies(key string, mk func() []docFamily) []docFamily {
 	famCacheMu.Lock()
-	defer famCacheMu.Unlock()
-	if f, ok := famCache[key]; ok {
+	f, ok := famCache[key]
+	famCacheMu.Unlock()
+	if ok {
 		return f
 	}
-	f := mk()
+	f = mk() // may itself call cachedFamilies
+	famCacheMu.Lock()
 	famCache[key] = f
+	famCacheMu.Unlock()
 	return f
 }
 
@@ -259,7 +262,7 @@ func init() {
 		Replay: func(c *fw.Ctx, raw json.RawMessage) {
 			var cs famCase
 			if json.Unmarshal(raw, &cs) == nil {
-				c01Text(c, cs.Fam, cs.I, cs.Text, nil, false)
+				c01Text(c, cs.Fam, cs.I, string(cs.Text), nil, false)
 			}
 		},
 	})
@@ -267,7 +270,7 @@ func init() {
 
 func c01Text(c *fw.Ctx, fam string, idx int, text string, den []sm.Record, hasDen bool) {
 	c.Eval(1)
-	cs := func() famCase { return famCase{fam, idx, text} }
+	cs := func() famCase { return famCase{fam, idx, fw.Txt(text)} }
 	c.Sample(func() any { return cs() })
 	ref := sm.Parse(text)
 	if hasDen && den == nil {
